@@ -245,7 +245,7 @@ func genSQL(rt *rapid.T, label string) (string, string) {
 }
 
 func smallFeatures() sqlgen.Features {
-	f := sqlgen.AllFeatures()
+	f := sqlgen.FullFeatures()
 	f.MaxDepth = 2
 	return f
 }
